@@ -207,16 +207,22 @@ func (w *Witness) Update(ctx context.Context, logID string, nextRaw []byte, pf [
 	if err != nil {
 		return nil, fmt.Errorf("couldn't parse stored STH: %v", err)
 	}
+	// Whatever happens next, an answer that shows the held STH shows it cosigned
+	// (as documented above and as GetSTH does), never the stored bytes verbatim.
+	held, err := w.signSTH(prev)
+	if err != nil {
+		return nil, fmt.Errorf("couldn't sign stored STH: %v", err)
+	}
 	if next.TreeSize < prev.TreeSize {
 		// Complain if prev is bigger than next.
-		return prevRaw, status.Errorf(codes.FailedPrecondition, "cannot prove consistency backwards (%d < %d)", next.TreeSize, prev.TreeSize)
+		return held, status.Errorf(codes.FailedPrecondition, "cannot prove consistency backwards (%d < %d)", next.TreeSize, prev.TreeSize)
 	}
 	if next.TreeSize == prev.TreeSize {
 		if !bytes.Equal(next.SHA256RootHash[:], prev.SHA256RootHash[:]) {
-			return prevRaw, status.Errorf(codes.FailedPrecondition, "STH for same size log with differing hash (got %x, have %x)", next.SHA256RootHash, prev.SHA256RootHash)
+			return held, status.Errorf(codes.FailedPrecondition, "STH for same size log with differing hash (got %x, have %x)", next.SHA256RootHash, prev.SHA256RootHash)
 		}
 		// If it's identical to the previous one do nothing.
-		return prevRaw, nil
+		return held, nil
 	}
 	// The only remaining option is next.Size > prev.Size. This might be
 	// valid so we verify the consistency proof.  The verifier hashes proof
@@ -224,12 +230,12 @@ func (w *Witness) Update(ctx context.Context, logID string, nextRaw []byte, pf [
 	// make the left/right pairing ambiguous: refuse them.
 	for _, h := range pf {
 		if len(h) != sha256.Size {
-			return prevRaw, status.Errorf(codes.FailedPrecondition, "consistency proof node of %d bytes, want %d", len(h), sha256.Size)
+			return held, status.Errorf(codes.FailedPrecondition, "consistency proof node of %d bytes, want %d", len(h), sha256.Size)
 		}
 	}
 	if err := proof.VerifyConsistency(rfc6962.DefaultHasher, prev.TreeSize, next.TreeSize, pf, prev.SHA256RootHash[:], next.SHA256RootHash[:]); err != nil {
 		// Complain if the STHs aren't consistent.
-		return prevRaw, status.Errorf(codes.FailedPrecondition, "failed to verify consistency proof: %v", err)
+		return held, status.Errorf(codes.FailedPrecondition, "failed to verify consistency proof: %v", err)
 	}
 	// If the consistency proof is good we store the raw STH and return the
 	// signed one.
